@@ -303,31 +303,31 @@ def gen_history(rng, world, n):
         active = [i for i, h in enumerate(world.handles) if h.is_active]
         r = rng.random()
         val += 1
-        if r < 0.18 or not world.objs:
+        if r < 0.17 or not world.objs:
             yield "A%d:%d:%d" % (len(world.objs), pk, val)
             pk += 1
-        elif r < 0.30 and (live or pend):
+        elif r < 0.29 and (live or pend):
             yield "M%d:%d" % (rng.choice(live + pend), val)
-        elif r < 0.38 and live:
+        elif r < 0.37 and live:
             yield "K%d:%d" % (rng.choice(live), pk)
             pk += 1
-        elif r < 0.46 and live:
+        elif r < 0.44 and live:
             yield "D%d" % rng.choice(live)
-        elif r < 0.56:
+        elif r < 0.53:
             yield "F"
-        elif r < 0.62 and live:
+        elif r < 0.59 and live:
             yield "L%d" % rng.choice(live)
-        elif r < 0.74:
+        elif r < 0.71:
             yield "n"
-        elif r < 0.80:
+        elif r < 0.77:
             yield "C"
-        elif r < 0.86:
+        elif r < 0.82:
             yield "R"
-        elif r < 0.87:
+        elif r < 0.83:
             yield "X"
-        elif r < 0.88:
+        elif r < 0.84:
             yield "b"
-        elif r < 0.92:
+        elif r < 0.865:
             # a `with session.no_autoflush:` block begins / ends
             yield "Z0" if world.sess.autoflush else "Z1"
         elif active:
@@ -369,6 +369,10 @@ FIXED = [
     "A0:1:10;C;n;M0:11;F;r1;L0",
     # F21: key switched in the transaction and again in a released savepoint, then rollback
     "A0:1:10;C;K0:5;F;n;K0:6;F;c2;R;L0",
+    # attribute assigned on an expired object without loading it (blind write) inside a
+    # savepoint that is rolled back; then flush / commit of the enclosing transaction
+    "A0:1:10;C;n;M0:11;r2;F;C;L0",
+    "A0:1:10;A1:2:20;C;L1;n;M0:11;M1:21;r2;C;L0;L1",
 ]
 
 FIXED_AF = [
@@ -385,7 +389,7 @@ def run(ctx, deep=False):
     from harness import lib_sess
 
     ctx.rule = (
-        "histories (<=12 ops quick, <=18 thorough, plus 8 scripted) of add/modify/pk-switch/delete/flush/load/begin/begin_nested/"
+        "histories (<=12 ops quick, <=18 thorough, plus 16 scripted) of add/modify/pk-switch/delete/flush/load/begin/begin_nested/"
         "commit/rollback/close and SessionTransaction handle commit/rollback/close (mostly innermost, sometimes outer) on a real Session, "
         "expire_on_commit on and off x Session(autoflush=True|False) x no_autoflush blocks beginning and ending anywhere; every op's record compared with the Lean model and checked by the oracle; "
         "non-trivial = uses a savepoint together with a rollback"
